@@ -19,6 +19,15 @@ BENIGN = [
     ("upstream_filter", "crates/dns-resolver/src/util/nameserver.rs", "    if request.header.id != response.header.id {\n        return false;\n    }", "    if response.header.id != request.header.id {\n        return false;\n    }", "flipped inequality"),
     ("server", "crates/resolved/src/main.rs", "    response.header.recursion_available = !args.authoritative_only;", "    let offered = !args.authoritative_only;\n    response.header.recursion_available = offered;", "introduced a local"),
     ("names", "crates/dns-types/src/protocol/types.rs", "        if labels.is_empty() {\n            return None;\n        }", "        if labels.len() == 0 {\n            return None;\n        }", "is_empty as len == 0"),
+    ("zone_text", "crates/dns-types/src/zones/serialise.rs", "    let mut out = String::with_capacity(2 + octets.len());", "    let mut out = String::new();", "no capacity hint"),
+    ("zone_text", "crates/dns-types/src/zones/serialise.rs", "        } else if *octet < 32 || *octet > 126 || (*octet == 32 && !quoted) {", "        } else if *octet > 126 || *octet < 32 || (!quoted && *octet == 32) {", "reordered disjuncts"),
+    ("zone_text", "crates/dns-types/src/zones/deserialise.rs", "            (State::Initial, ';') => State::SkipToEndOfComment,\n            (State::Initial, '(') => {", "            (State::Initial, ';') => {\n                // a comment\n                State::SkipToEndOfComment\n            }\n            (State::Initial, '(') => {", "arm body as a block with a comment"),
+    ("zone_file", "crates/dns-types/src/zones/deserialise.rs", "        let mut rrs = Vec::new();\n        let mut wildcard_rrs = Vec::new();", "        let mut wildcard_rrs = Vec::new();\n        let mut rrs = Vec::with_capacity(16);", "swapped lets, capacity hint"),
+    ("zone_file", "crates/dns-types/src/zones/deserialise.rs", "                        if apex_and_soa.is_some() {\n                            return Err(Error::MultipleSOA);\n                        }", "                        if let Some(_) = apex_and_soa {\n                            return Err(Error::MultipleSOA);\n                        }", "is_some as if-let"),
+    ("hosts_text", "crates/dns-types/src/hosts/deserialise.rs", "    if new_names.is_empty() {\n        Ok(None)\n    } else {\n        Ok(Some((address, new_names)))\n    }", "    if !new_names.is_empty() {\n        Ok(Some((address, new_names)))\n    } else {\n        Ok(None)\n    }", "negated condition, swapped branches"),
+    ("hosts_text", "crates/dns-types/src/hosts/deserialise.rs", "        let mut hosts = Self::new();\n        for line in data.lines() {", "        let mut hosts = Self::new();\n        // one mapping line at a time\n        for line in data.lines() {", "added comment"),
+    ("hosts_conv", "crates/dns-types/src/hosts/types.rs", "        let mut zone = Self::default();\n        for (name, address) in hosts.v4 {", "        let mut zone = Zone::default();\n        for (name, address) in hosts.v4 {", "Self as Zone"),
+    ("server", "crates/dns-resolver/src/util/net.rs", "            let expected = size as usize;\n            let mut bytes = BytesMut::with_capacity(expected);", "            let expected = usize::from(size);\n            let mut bytes = BytesMut::with_capacity(expected);", "cast as From"),
     ("config", "crates/resolved/src/fs.rs", "    let mut is_error = false;\n    let mut hosts_file_paths = Vec::from(hosts_files);\n    let mut zone_file_paths = Vec::from(zone_files);", "    let mut hosts_file_paths = Vec::from(hosts_files);\n    let mut zone_file_paths = Vec::from(zone_files);\n    let mut is_error = false;", "reordered lets"),
 ]
 
